@@ -188,8 +188,8 @@ def compare_rows(res, what, base, other, buses, opt, rtol=1e-9, **detail):
                 res.fail("invariance/%s/column-missing" % what, bus=b, column=c, **detail)
             elif not _rel(ra[c], rb[c], rtol, atol):
                 sig = "invariance/%s/%s" % (what, c)
-                if c in ("ip_ka", "ith_ka"):     # the peak factor is the only ingredient besides ikss
-                    sig += "/kappa-%s-%s" % (opt["kappa_method"], opt["topology"])
+                if c in ("ip_ka", "ith_ka"):     # ikss agrees (checked before): the peak factor is the ingredient that differs
+                    sig = "invariance/%s/peak-factor/kappa-%s-%s" % (what, opt["kappa_method"], opt["topology"])
                 res.fail(sig, bus=b, column=c, base=ra[c], other=rb[c], **detail)
                 break
 
@@ -283,7 +283,7 @@ def check(case):
         elif not two:
             ik2_ref = ref.ikss2(b, zf)
             if not _rel(row["ikss_ka"], ik1 + ik2_ref, 1e-8):
-                res.fail("ikss/current-source-share", bus=b, ikss=row["ikss_ka"], ikss1=ik1, ikss2_ref=ik2_ref)
+                res.fail("zk/multi-kg-gen-node" if multi_kg else "ikss/current-source-share", bus=b, ikss=row["ikss_ka"], ikss1=ik1, ikss2_ref=ik2_ref)
         ik2 = max(0.0, row["ikss_ka"] - ik1) if cur_src else 0.0
         # (iii) skss
         if not two and not _rel(row["skss_mw"], math.sqrt(3.0) * un * row["ikss_ka"], 1e-9):
@@ -308,7 +308,7 @@ def check(case):
                 elif not _rel(kappa, kc, 1e-7):
                     res.label("kappa-C-deviates-from-IEC(unchecked-shape)")
             if kexp is not None and not _rel(kappa, kexp, 1e-7):
-                sig = "kappa/multi-kg-gen-node" if multi_kg else "kappa/formula/%s-%s/%s" % (opt["kappa_method"], opt["topology"], kinds_sig)
+                sig = "zk/multi-kg-gen-node" if multi_kg and zc_ref is not None else "kappa/formula/%s-%s/%s" % (opt["kappa_method"], opt["topology"], kinds_sig)
                 res.fail(sig, bus=b, kappa=kappa, expected=kexp, ikss1=ik1, ikss2=ik2, row=row)
     if finite:
         res.label("finite-results")
